@@ -111,10 +111,13 @@ def create_command(
         )
     # Build command
     return "".join("{workdir}{environment}{command}{stdin}{stdout}{stderr}").format(
-        workdir=f"cd {workdir} && " if workdir is not None else "",
+        workdir=f"cd {shlex.quote(workdir)} && " if workdir is not None else "",
         environment=(
             "".join(
-                [f'export {key}="{value}" && ' for (key, value) in environment.items()]
+                [
+                    f"export {key}={shlex.quote(value)} && "
+                    for (key, value) in environment.items()
+                ]
             )
             if environment is not None
             else ""
